@@ -9,22 +9,32 @@
 // different / equal types, every interleaving with ≤ B preemptions at the sync points of tsdb/shard.go,
 // tsm1/engine.go, tsm1/cache.go, tsm1/ring.go.
 //
-// Part 3 (crash points) is added by the coordinator with the crashfs engine: WriteHistory (performs a
-// history on a directory, leaves the shard open) and CheckRecovery (opens a directory with the real open
-// path and compares it with a set of allowed models) are kept separate for that purpose.
+// Part 3 (crash points, engine crashfs): WriteHistory runs as a history writer subprocess under strace with
+// BEGIN/ACK markers; every prefix image and every torn image of the field-schema files is recovered by
+// CheckCrashRecovery (real open path, probe write of another type, second process death) in fresh subprocesses.
 package c10
 
 import (
+	"bufio"
+	"crypto/sha256"
+	"encoding/hex"
 	"encoding/json"
+	"errors"
 	"fmt"
 	"os"
+	"os/exec"
 	"path/filepath"
+	"regexp"
+	"runtime/debug"
 	"sort"
+	"strconv"
 	"strings"
+	"sync"
 	"testing"
 	"time"
 
 	"github.com/influxdata/influxdb/v2/pkg/verifrt/vrt"
+	"verif/h/crashfs"
 	"verif/h/shardkit"
 	"verif/h/vlib"
 )
@@ -993,16 +1003,1103 @@ func replaySched(t *testing.T, raw json.RawMessage) (bool, string) {
 	return !ok, fmt.Sprintf("%s schedule=%v results=%v %s\n%s: %s", cs.Scenario.Name, cs.Choices, so.results, so.obs, clause, why)
 }
 
+// =========================================================================================================
+// PART 3 crash points (engine: verif/h/crashfs)
+//
+// A history writer (this binary re-executed under strace) performs a history with WriteHistory, bracketing the
+// initial open of the empty directory (k=0) and every op (k=i+1) with BEGIN/ACK markers, and exits without closing.
+// Every prefix image of the syscall log (crash between two syscalls) and every torn length of the writes to the
+// field-schema files (fields.idxl, fields.idx.tmp, fields.idx; thorough: of every write) is materialized and
+// recovered in a fresh subprocess by CheckCrashRecovery with the real open path. No U images: the statement speaks of
+// process death and tsdb/shard.go promises no fsync-before-acknowledge for the field files beyond their O_SYNC.
+
+// CrashHistory is one work item of the crash part: a history and the op window whose cuts are evaluated.
+type CrashHistory struct {
+	Name string   `json:"name"`
+	Ops  []string `json:"ops"`
+	// From/Upto: only the images whose cut lies inside or after op From (-1: also the initial open) and before the
+	// BEGIN of op Upto (0 = len(Ops)) are evaluated; each work item records the whole history again.
+	From int `json:"from"`
+	Upto int `json:"upto,omitempty"`
+	// AllTorn: torn images of every write (else only of the writes to the field-schema files).
+	AllTorn bool `json:"all_torn,omitempty"`
+}
+
+func (h CrashHistory) String() string {
+	w := ""
+	if h.Upto != 0 {
+		w = fmt.Sprintf(" cuts of ops %d..%d", h.From, h.Upto-1)
+	} else if h.From > 0 {
+		w = fmt.Sprintf(" cuts of ops %d..", h.From)
+	}
+	return h.Name + " [" + strings.Join(h.Ops, " ") + "]" + w
+}
+
+// splitAt splits a history into work items at the given op indexes (increasing, inside the window).
+func splitAt(h CrashHistory, at ...int) []CrashHistory {
+	var out []CrashHistory
+	lo := h.From
+	for _, b := range append(at, len(h.Ops)) {
+		w := h
+		w.From, w.Upto = lo, b
+		out = append(out, w)
+		lo = b
+	}
+	return out
+}
+
+func perOp(h CrashHistory) []CrashHistory {
+	var at []int
+	for i := max(h.From, 0) + 1; i < len(h.Ops); i++ {
+		at = append(at, i)
+	}
+	return splitAt(h, at...)
+}
+
+// crashAlphabet: the ops of the enumerated crash histories (kill-restart copies the directory elsewhere and is not
+// part of a recorded history).
+var crashAlphabet = []string{"WF", "WI", "WG", "W2", opDrop, opSnapshot, opReopen}
+
+func crashHistories(tier string) []CrashHistory {
+	thorough := tier == "thorough"
+	var hs []CrashHistory
+	add := func(h CrashHistory, quickSplit ...int) {
+		if thorough {
+			hs = append(hs, perOp(h)...)
+		} else {
+			hs = append(hs, splitAt(h, quickSplit...)...)
+		}
+	}
+	// field create (fields.idxl append), conflicting write (no record), second field, drop (deletion record), the
+	// same field again with another type, other measurement
+	add(CrashHistory{Name: "create-conflict-drop", Ops: []string{"WF", "WI", "WG", opDrop, "WS", "W2"}, From: -1}, 1, 3, 4)
+	// fields.idx rewrite: clean close folds fields.idxl into fields.idx (tmp + rename); drop on top of a fields.idx that
+	// lists the measurement; field create on top of fields.idx; second fold
+	add(CrashHistory{Name: "fold-drop-fold", Ops: []string{"WF", "W2", opReopen, opDrop, "WI", opReopen, "WG"}}, 2, 3, 4, 5)
+	// snapshot to TSM, then drop (TSM tombstones + deletion record), re-creation with another type, snapshot, reopen
+	add(CrashHistory{Name: "snapshot-drop", Ops: []string{"WF", opSnapshot, opDrop, "WI", opSnapshot, opReopen}}, 2, 3, 5)
+	if !thorough {
+		return hs
+	}
+	add(CrashHistory{Name: "create-conflict-drop/all-torn", Ops: []string{"WF", "WI", "WG", opDrop, "WS", "W2"}, From: -1, AllTorn: true})
+	add(CrashHistory{Name: "drop-twice", Ops: []string{"WF", "WG", opDrop, opDrop, "WF", opReopen, opDrop, opReopen, "WS"}})
+	// every sequence of length 1..3 over the crash alphabet, cuts of the last op only
+	maxLen := 3
+	if s := os.Getenv("C10_CRASH_DEPTH"); s != "" {
+		fmt.Sscan(s, &maxLen)
+	}
+	for n := 1; n <= maxLen; n++ {
+		sequences(rep(crashAlphabet, n), func(s []string) {
+			hs = append(hs, CrashHistory{Name: "seq", Ops: s, From: n - 1})
+		})
+	}
+	return hs
+}
+
+// crashOpts: the configuration of every crash history (1 tsi1 partition; series type check off).
+var crashOpts = Options{TSIPartitions: 1}
+
+// ---------- history writer (runs under strace) ----------
+
+type crashWriterSpec struct {
+	Dir     string   `json:"dir"`
+	Markers string   `json:"markers"`
+	Ops     []string `json:"ops"`
+}
+
+type markerOp struct {
+	I  int    `json:"i"` // -1: the initial open
+	Op string `json:"op"`
+}
+
+func crashWriterMain(js string) int {
+	var sp crashWriterSpec
+	if err := json.Unmarshal([]byte(js), &sp); err != nil {
+		fmt.Fprintln(os.Stderr, "c10 writer: bad spec:", err)
+		return 2
+	}
+	m, err := crashfs.OpenMarkers(sp.Markers)
+	if err != nil {
+		fmt.Fprintln(os.Stderr, "c10 writer:", err)
+		return 2
+	}
+	opened := false
+	open := func() {
+		if !opened {
+			opened = true
+			m.Ack(0, "ok")
+		}
+	}
+	m.Begin(0, markerOp{I: -1, Op: "open"})
+	_, _, err = WriteHistory(sp.Dir, sp.Ops, crashOpts, func(k int, phase, op, result string) {
+		if phase == "begin" {
+			open()
+			m.Begin(k+1, markerOp{I: k, Op: op})
+		} else {
+			m.Ack(k+1, result)
+		}
+	})
+	if err != nil {
+		fmt.Fprintln(os.Stderr, "c10 writer: history failed live:", err)
+		return 1
+	}
+	open()
+	return 0 // the process exits with the shard open
+}
+
+// ---------- acknowledgement context ----------
+
+type crashCtx struct {
+	NAcked int    // acknowledged ops (a prefix of the history), without the initial open
+	Infl   string // op in flight ("" none, "open" the initial open)
+	InflI  int
+}
+
+func contextOf(h CrashHistory, im *crashfs.Image) (cx crashCtx, err error) {
+	cx.InflI = -1
+	want := ModelOf(h.Ops).Result
+	for _, a := range im.Acked() {
+		var mo markerOp
+		if err := json.Unmarshal([]byte(a.Op), &mo); err != nil {
+			return cx, fmt.Errorf("marker payload %q: %v", a.Op, err)
+		}
+		if mo.I < 0 {
+			continue
+		}
+		if mo.I != cx.NAcked || mo.Op != h.Ops[mo.I] {
+			return cx, fmt.Errorf("acknowledgements are not a prefix of the history: op %d %s at position %d", mo.I, mo.Op, cx.NAcked)
+		}
+		if a.Result != want[mo.I] {
+			return cx, fmt.Errorf("the history failed live: op %d %s returned %q, the model says %q", mo.I, mo.Op, a.Result, want[mo.I])
+		}
+		cx.NAcked++
+	}
+	if f := im.InFlight(); f != nil {
+		var mo markerOp
+		if err := json.Unmarshal([]byte(f.Op), &mo); err != nil {
+			return cx, fmt.Errorf("marker payload %q: %v", f.Op, err)
+		}
+		cx.Infl, cx.InflI = mo.Op, mo.I
+	}
+	return cx, nil
+}
+
+func (h CrashHistory) keep(cx crashCtx) bool {
+	pos := cx.NAcked - 1
+	if cx.Infl != "" {
+		pos = cx.InflI
+	}
+	return pos >= h.From && (h.Upto == 0 || pos < h.Upto)
+}
+
+// inflClass names the op in flight for signatures and outcomes, by what it does to the schema.
+func inflClass(ops []string, cx crashCtx) string {
+	switch cx.Infl {
+	case "":
+		return "none"
+	case "open", opDrop, opSnapshot, opReopen:
+		return cx.Infl
+	}
+	before := ModelOf(ops[:cx.NAcked])
+	d := writeOps[cx.Infl]
+	cur, ok := before.Schema[d.m][d.f]
+	switch {
+	case !ok:
+		return "write-new-field"
+	case cur != d.typ:
+		return "write-conflicting"
+	}
+	return "write-existing-field"
+}
+
+// ---------- recovery checker ----------
+
+// CrashObs is the verdict of CheckCrashRecovery on one image under one acknowledgement context.
+type CrashObs struct {
+	ID     string `json:"id"`
+	Done   bool   `json:"done"`
+	Stage  string `json:"stage,omitempty"`  // recovery | probe | second-restart
+	Clause string `json:"clause,omitempty"` // "" = the image recovers as the oracle demands
+	Why    string `json:"why,omitempty"`
+	Panic  string `json:"panic,omitempty"`
+	Died   string `json:"died,omitempty"`   // set by the parent: the recovery subprocess died or hung on this image, also when run alone
+	Settle string `json:"settle,omitempty"` // which schema the recovered shard shows: before | after | same (before = after)
+	Probe  string `json:"probe,omitempty"`  // probe write and its result
+	State  string `json:"state,omitempty"`  // recovered schema
+}
+
+func schemaMismatches(ob Observation, m *Model) []Mismatch {
+	var out []Mismatch
+	for _, mm := range Compare(Observation{Schema: ob.Schema, Raw: m.Data, Cursor: m.Data}, m) {
+		out = append(out, mm)
+	}
+	return out
+}
+
+// multiset is in fact a set: the raw dump lists a value once per place it is stored in, and a crash between the
+// rename of a snapshot's TSM file and the removal of its WAL segments legitimately leaves a value in both.
+func multiset(vs []shardkit.Val) map[shardkit.Val]int {
+	out := map[shardkit.Val]int{}
+	for _, v := range vs {
+		out[v] = 1
+	}
+	return out
+}
+
+// crashCompareData: per key, the stored values must contain what both models hold and nothing that neither holds.
+func crashCompareData(got map[string][]shardkit.Val, before, after *Model, via string) []Mismatch {
+	var out []Mismatch
+	keys := map[string]bool{}
+	for _, m := range []map[string][]shardkit.Val{got, before.Data, after.Data} {
+		for k := range m {
+			keys[k] = true
+		}
+	}
+	var ks []string
+	for k := range keys {
+		ks = append(ks, k)
+	}
+	sort.Strings(ks)
+	for _, k := range ks {
+		b, a, g := multiset(before.Data[k]), multiset(after.Data[k]), multiset(got[k])
+		var vals []shardkit.Val
+		seen := map[shardkit.Val]bool{}
+		for _, l := range [][]shardkit.Val{got[k], before.Data[k], after.Data[k]} {
+			for _, v := range l {
+				if !seen[v] {
+					seen[v] = true
+					vals = append(vals, v)
+				}
+			}
+		}
+		shardkit.SortVals(vals)
+		for _, v := range vals {
+			lo, hi := min(b[v], a[v]), max(b[v], a[v])
+			op := int(v.T/100) - 1
+			switch {
+			case g[v] > hi:
+				cl := "unexpected-value/"
+				switch fateOf(before, after, op) {
+				case "rejected":
+					cl = "conflicting-value-stored/"
+				case "dropped":
+					cl = "dropped-data-resurrected/"
+				}
+				out = append(out, Mismatch{cl + via, fmt.Sprintf("%s: %q holds %d=%s (op #%d) which neither the state before nor after the op in flight contains", via, k, v.T, v.V, op)})
+			case g[v] < lo:
+				out = append(out, Mismatch{"accepted-value-lost/" + via, fmt.Sprintf("%s: %q lacks %d=%s of the acknowledged op #%d", via, k, v.T, v.V, op)})
+			}
+		}
+	}
+	return out
+}
+
+func fateOf(before, after *Model, op int) string {
+	if f, ok := after.Fate[op]; ok {
+		return f
+	}
+	return before.Fate[op]
+}
+
+func otherType(t string) string {
+	switch t {
+	case "float":
+		return "integer"
+	case "integer":
+		return "string"
+	}
+	return "float"
+}
+
+// probeFor chooses the write made after the recovery: the field the op in flight touches (else m.f) with a type
+// different from the one recorded before the cut (else from the one the op in flight carries).
+func probeFor(ops []string, n int, infl string, before *Model) (m, f, typ string) {
+	m, f = "m", "f"
+	if d, ok := writeOps[infl]; ok {
+		m, f = d.m, d.f
+		typ = otherType(d.typ)
+	}
+	if cur, ok := before.Schema[m][f]; ok {
+		typ = otherType(cur)
+	} else if typ == "" {
+		typ = "integer"
+	}
+	return
+}
+
+func typeOfRendered(v string) string { return strings.SplitN(v, ":", 2)[0] }
+
+// oneTypePerField: every stored value of a field has the type the shard records for that field.
+func oneTypePerField(ob Observation) *Mismatch {
+	var ks []string
+	for k := range ob.Raw {
+		ks = append(ks, k)
+	}
+	sort.Strings(ks)
+	for _, k := range ks {
+		parts := strings.SplitN(k, "#!~#", 2)
+		if len(parts) != 2 {
+			continue
+		}
+		meas := strings.SplitN(parts[0], ",", 2)[0]
+		rec, ok := ob.Schema[meas][parts[1]]
+		for _, v := range ob.Raw[k] {
+			if t := typeOfRendered(v.V); !ok || t != rec {
+				if !ok {
+					rec = "<not recorded>"
+				}
+				return &Mismatch{"stored-value-type-differs-from-recorded-type", fmt.Sprintf("%q holds %d=%s but the shard records %s.%s as %s", k, v.T, v.V, meas, parts[1], rec)}
+			}
+		}
+	}
+	return nil
+}
+
+func sameRaw(a, b map[string][]shardkit.Val) bool {
+	return shardkit.RawString(a) == shardkit.RawString(b)
+}
+
+// CheckCrashRecovery is the recovery checker of the crash part. dir holds a crash image of the history ops taken
+// when ops[:n] were acknowledged and infl ("" = none) was in flight.
+func CheckCrashRecovery(dir string, o Options, ops []string, n int, infl string) (co CrashObs) {
+	before := ModelOf(ops[:n])
+	after := before
+	if _, isOp := map[string]bool{"": false, "open": false}[infl]; !isOp {
+		after = ModelOf(ops[:n+1])
+	}
+	fail := func(stage, clause, why string) CrashObs {
+		co.Stage, co.Clause, co.Why, co.Done = stage, clause, why, true
+		return co
+	}
+	fx, err := shardkit.Open(dir, o.kit())
+	if err != nil {
+		return fail("recovery", "open-failed", "the shard does not open on the crash image: "+err.Error())
+	}
+	closed := false
+	defer func() {
+		if !closed && fx != nil && fx.Shard != nil {
+			closeHung(fx)
+		}
+	}()
+	// stage 1: what the recovered shard holds
+	ob, err := Observe(fx)
+	if err != nil {
+		return fail("recovery", "harness", "observe: "+err.Error())
+	}
+	co.State = shardkit.SchemaString(ob.Schema, true)
+	mb, ma := schemaMismatches(ob, before), schemaMismatches(ob, after)
+	settled := before
+	switch {
+	case len(mb) == 0 && len(ma) == 0:
+		co.Settle = "same"
+	case len(mb) == 0:
+		co.Settle = "before"
+	case len(ma) == 0:
+		co.Settle, settled = "after", after
+	default:
+		mm := mb[0]
+		if len(ma) < len(mb) {
+			mm = ma[0]
+		}
+		return fail("recovery", mm.Clause, fmt.Sprintf("%s (recorded schema {%s}; before the op in flight {%s}, after it {%s})", mm.Msg, co.State, shardkit.SchemaString(before.Schema, true), shardkit.SchemaString(after.Schema, true)))
+	}
+	if mm := crashCompareData(ob.Raw, before, after, "raw"); len(mm) > 0 {
+		return fail("recovery", mm[0].Clause, mm[0].Msg)
+	}
+	if len(ob.CursorErr) > 0 {
+		return fail("recovery", "read-error", "reading through the cursor API failed: "+strings.Join(ob.CursorErr, "; "))
+	}
+	if mm := crashCompareData(ob.Cursor, before, after, "cursor"); len(mm) > 0 {
+		return fail("recovery", mm[0].Clause, mm[0].Msg)
+	}
+	if mm := oneTypePerField(ob); mm != nil {
+		return fail("recovery", mm.Clause, mm.Msg)
+	}
+	// stage 2: a write of another type to the field in question, judged by the schema the shard settled on
+	pm, pf, pt := probeFor(ops, n, infl, before)
+	k := len(ops) + 1
+	var specs []shardkit.PointSpec
+	for j := 1; j <= pointsPerWrite; j++ {
+		specs = append(specs, shardkit.PointSpec{M: pm, T: int64(100*(k+1) + j), Fields: []shardkit.FieldSpec{{Name: pf, Type: pt, Val: int64(10*(k+1) + j)}}})
+	}
+	pts, err := shardkit.Points(specs)
+	if err != nil {
+		return fail("probe", "harness", err.Error())
+	}
+	want := "ok"
+	if cur, ok := settled.Schema[pm][pf]; ok && cur != pt {
+		want = fmt.Sprintf("conflict:%d", pointsPerWrite)
+	}
+	got := "ok"
+	if werr := fx.Write(pts); werr != nil {
+		if nd, ok := shardkit.Dropped(werr); ok {
+			got = fmt.Sprintf("conflict:%d", nd)
+		} else {
+			got = "err:" + werr.Error()
+		}
+	}
+	co.Probe = fmt.Sprintf("%s.%s as %s -> %s", pm, pf, pt, got)
+	if got != want {
+		g := resultKind(got)
+		if g == "conflict" && resultKind(want) == "conflict" {
+			g = "conflict-wrong-count"
+		}
+		return fail("probe", "write-result/want="+resultKind(want)+"/got="+g, fmt.Sprintf("after the recovery (recorded schema {%s}) a write of %s.%s as %s returned %q, the statement prescribes %q", co.State, pm, pf, pt, got, want))
+	}
+	ob2, err := Observe(fx)
+	if err != nil {
+		return fail("probe", "harness", "observe: "+err.Error())
+	}
+	wantSchema := map[string]map[string]string{}
+	for ms, fs := range settled.Schema {
+		wantSchema[ms] = map[string]string{}
+		for f, t := range fs {
+			wantSchema[ms][f] = t
+		}
+	}
+	if want == "ok" {
+		if wantSchema[pm] == nil {
+			wantSchema[pm] = map[string]string{}
+		}
+		wantSchema[pm][pf] = pt
+	}
+	if g, w := shardkit.SchemaString(ob2.Schema, true), shardkit.SchemaString(wantSchema, true); g != w {
+		return fail("probe", "field-type-changed-by-probe", fmt.Sprintf("after the probe write (%s) the shard records {%s}, should be {%s}", co.Probe, g, w))
+	}
+	pkey := shardkit.CompositeKey(specs[0].SeriesKey(), pf)
+	nProbe := 0
+	for _, v := range ob2.Raw[pkey] {
+		if v.T/100 == int64(k+1) {
+			nProbe++
+		}
+	}
+	if want == "ok" && nProbe != pointsPerWrite {
+		return fail("probe", "accepted-value-lost/raw", fmt.Sprintf("the accepted probe write (%s) left %d of its %d values in %q", co.Probe, nProbe, pointsPerWrite, pkey))
+	}
+	if want != "ok" && nProbe != 0 {
+		return fail("probe", "conflicting-value-stored/raw", fmt.Sprintf("the rejected probe write (%s) left %d values in %q", co.Probe, nProbe, pkey))
+	}
+	if len(ob2.CursorErr) > 0 {
+		return fail("probe", "read-error", "reading through the cursor API failed after the probe write: "+strings.Join(ob2.CursorErr, "; "))
+	}
+	if mm := oneTypePerField(ob2); mm != nil {
+		return fail("probe", mm.Clause, mm.Msg+" (after the probe write "+co.Probe+")")
+	}
+	// stage 3: second process death (directory copied without closing) and restart: nothing changes
+	if err := fx.KillRestart(dir + ".kr"); err != nil {
+		closed = fx.Shard == nil
+		return fail("second-restart", "open-failed", "the shard does not open after the second process death: "+err.Error())
+	}
+	ob3, err := Observe(fx)
+	if err != nil {
+		return fail("second-restart", "harness", "observe: "+err.Error())
+	}
+	if g, w := shardkit.SchemaString(ob3.Schema, true), shardkit.SchemaString(ob2.Schema, true); g != w {
+		cl := "field-type-changed"
+		for ms := range ob3.Schema {
+			if _, ok := ob2.Schema[ms]; !ok && len(ob3.Schema[ms]) > 0 {
+				cl = "field-type-unexpected"
+				if ms == "m" && settled.Drops > 0 {
+					cl = "dropped-schema-resurrected"
+				}
+			}
+		}
+		for ms := range ob2.Schema {
+			if len(ob2.Schema[ms]) > 0 && len(ob3.Schema[ms]) == 0 {
+				cl = "field-type-lost"
+			}
+		}
+		return fail("second-restart", cl, fmt.Sprintf("after the second restart the shard records {%s}, before it {%s}", g, w))
+	}
+	if !sameRaw(ob3.Raw, ob2.Raw) {
+		return fail("second-restart", "stored-values-changed", fmt.Sprintf("after the second restart the shard holds {%s}, before it {%s}", shardkit.RawString(ob3.Raw), shardkit.RawString(ob2.Raw)))
+	}
+	if len(ob3.CursorErr) > 0 {
+		return fail("second-restart", "read-error", "reading through the cursor API failed after the second restart: "+strings.Join(ob3.CursorErr, "; "))
+	}
+	if mm := oneTypePerField(ob3); mm != nil {
+		return fail("second-restart", mm.Clause, mm.Msg)
+	}
+	co.Done = true
+	return co
+}
+
+type crashRecItem struct {
+	ID   string   `json:"id"`
+	Dir  string   `json:"dir"`
+	Ops  []string `json:"ops"`
+	N    int      `json:"acked"`
+	Infl string   `json:"in_flight"`
+}
+
+type crashRecJob struct {
+	Items []crashRecItem `json:"items"`
+	Out   string         `json:"out"`
+}
+
+func crashRecoverOne(it crashRecItem) (o CrashObs) {
+	panicked, desc := vlib.Guard(func() { o = CheckCrashRecovery(it.Dir, crashOpts, it.Ops, it.N, it.Infl) })
+	if panicked {
+		o = CrashObs{Panic: desc}
+	}
+	o.ID = it.ID
+	scrub := func(s string) string {
+		return strings.ReplaceAll(strings.ReplaceAll(s, it.Dir+".kr", "<image2>"), it.Dir, "<image>")
+	}
+	o.Why, o.Panic = scrub(o.Why), scrub(o.Panic)
+	return
+}
+
+func crashRecoverMain(jobPath string) int {
+	b, err := os.ReadFile(jobPath)
+	if err != nil {
+		fmt.Fprintln(os.Stderr, "c10 recover:", err)
+		return 2
+	}
+	var job crashRecJob
+	if err := json.Unmarshal(b, &job); err != nil {
+		fmt.Fprintln(os.Stderr, "c10 recover:", err)
+		return 2
+	}
+	out, err := os.OpenFile(job.Out, os.O_CREATE|os.O_WRONLY|os.O_APPEND, 0o666)
+	if err != nil {
+		fmt.Fprintln(os.Stderr, "c10 recover:", err)
+		return 2
+	}
+	debug.SetMaxStack(32 << 20)
+	for _, it := range job.Items {
+		fmt.Fprintf(os.Stderr, "c10 recover: image %s\n", it.ID)
+		o := crashRecoverOne(it)
+		line, _ := json.Marshal(o)
+		out.Write(append(line, '\n'))
+		os.RemoveAll(it.Dir + ".kr")
+		os.RemoveAll(it.Dir)
+	}
+	out.Close()
+	return 0
+}
+
+func classify(o *CrashObs) (clause, stage, detail string) {
+	switch {
+	case o.Died != "":
+		return "recovery-died", "recovery", "the recovery process did not survive the crash image: " + o.Died
+	case o.Panic != "":
+		fr := strings.TrimSpace(o.Panic[strings.LastIndex(o.Panic, "@")+1:])
+		return "panic/" + strings.TrimPrefix(fr, "github.com/influxdata/influxdb/v2/"), "recovery", "panic during recovery: " + o.Panic
+	case !o.Done:
+		return "harness", "", "no verdict"
+	case o.Clause == "":
+		return "", "", ""
+	}
+	return o.Clause, o.Stage, o.Why
+}
+
+// ---------- recording, image enumeration, driver ----------
+
+// no sync classes: P and T images only
+var crashImgOpts = crashfs.Options{Torn: true, Unsynced: false}
+
+func selfEnv(extra ...string) []string {
+	var env []string
+	for _, e := range os.Environ() {
+		if strings.HasPrefix(e, "VERIF_WORKER") || strings.HasPrefix(e, "VERIF_REPLAY=") || strings.HasPrefix(e, "VERIF_CRASH_WRITER=") || strings.HasPrefix(e, "VERIF_C10_") || strings.HasPrefix(e, "GOMAXPROCS=") {
+			continue
+		}
+		env = append(env, e)
+	}
+	return append(env, extra...)
+}
+
+func recordCrashHistory(scratch string, h CrashHistory) (*crashfs.Log, error) {
+	dir, err := os.MkdirTemp(scratch, "rec-")
+	if err != nil {
+		return nil, err
+	}
+	defer os.RemoveAll(dir)
+	sp := crashWriterSpec{Dir: filepath.Join(dir, "d"), Markers: filepath.Join(dir, "markers"), Ops: h.Ops}
+	js, _ := json.Marshal(sp)
+	return crashfs.Record(crashfs.RecordSpec{
+		Argv:       []string{os.Args[0], "-test.run", "^TestCheck$", "-test.timeout", "0"},
+		Env:        selfEnv("VERIF_CRASH_WRITER="+string(js), "GOMAXPROCS=1"),
+		DataDir:    sp.Dir,
+		MarkerFile: sp.Markers,
+	})
+}
+
+// prefixDigest pins the part of a log a descriptor depends on (see c26): paths, offsets and payload bytes of every
+// event up to the cut. The WAL segment payload is snappy-compressed points and the tsi1 log carries series ids, all
+// deterministic for a history.
+func prefixDigest(l *crashfs.Log, d crashfs.Descriptor) string {
+	n := d.Cut
+	if d.TornLen >= 0 && d.TornEvent >= n {
+		n = d.TornEvent + 1
+	}
+	if n > len(l.Events) {
+		return "log-too-short"
+	}
+	h := sha256.New()
+	for i := 0; i < n; i++ {
+		e := &l.Events[i]
+		fmt.Fprintf(h, "%s|%s|%s|%d|%d|%d|%x|", e.Op, normPath(e.Path), normPath(e.Path2), e.Ino, e.Off, e.Size, sha256.Sum256(e.Data))
+		if e.Marker != nil {
+			fmt.Fprintf(h, "%s|%d|%s|", e.Marker.Kind, e.Marker.K, e.Marker.Payload)
+		}
+	}
+	return hex.EncodeToString(h.Sum(nil)[:8])
+}
+
+var manifestTmpRe = regexp.MustCompile(`MANIFEST[0-9]+`)
+
+// normPath removes the random suffix of the tsi1 manifest's temporary file name.
+func normPath(p string) string { return manifestTmpRe.ReplaceAllString(p, "MANIFEST.tmp") }
+
+var (
+	crashLogMu    sync.Mutex
+	crashLogCache = map[string]*crashfs.Log{}
+)
+
+func crashHistoryKey(h CrashHistory) string { return strings.Join(h.Ops, " ") }
+
+func findCrashLog(scratch string, h CrashHistory, d crashfs.Descriptor, digest string) (*crashfs.Log, string) {
+	crashLogMu.Lock()
+	l := crashLogCache[crashHistoryKey(h)]
+	crashLogMu.Unlock()
+	if l != nil && (digest == "" || prefixDigest(l, d) == digest) {
+		return l, ""
+	}
+	for try := 0; try < 4; try++ {
+		l, err := recordCrashHistory(scratch, h)
+		if err != nil {
+			return nil, "recording failed: " + err.Error()
+		}
+		crashLogMu.Lock()
+		crashLogCache[crashHistoryKey(h)] = l
+		crashLogMu.Unlock()
+		if digest == "" || prefixDigest(l, d) == digest {
+			return l, ""
+		}
+	}
+	return nil, "could not re-record a log with the same event prefix (the history is not deterministic enough for this descriptor)"
+}
+
+const isolatedTimeout = 90 * time.Second
+
+type crashItem struct {
+	im *crashfs.Image
+	cx crashCtx
+}
+
+func runCrashRecovery(dir string, h CrashHistory, items []crashItem, timeout time.Duration) (map[string]*CrashObs, string, error) {
+	job := crashRecJob{Out: filepath.Join(dir, "out.jsonl")}
+	for i, it := range items {
+		d := filepath.Join(dir, strconv.Itoa(i))
+		if err := it.im.Materialize(d); err != nil {
+			return nil, "", fmt.Errorf("materialize %v: %w", it.im.Desc, err)
+		}
+		infl := it.cx.Infl
+		job.Items = append(job.Items, crashRecItem{ID: strconv.Itoa(i), Dir: d, Ops: h.Ops, N: it.cx.NAcked, Infl: infl})
+	}
+	jb, _ := json.Marshal(job)
+	jp := filepath.Join(dir, "job.json")
+	if err := os.WriteFile(jp, jb, 0o666); err != nil {
+		return nil, "", err
+	}
+	cmd := exec.Command(os.Args[0], "-test.run", "^TestCheck$", "-test.timeout", "0")
+	cmd.Env = selfEnv("VERIF_C10_RECOVER="+jp, "GOMAXPROCS=2")
+	var stderr strings.Builder
+	cmd.Stdout = &stderr
+	cmd.Stderr = &stderr
+	if err := cmd.Start(); err != nil {
+		return nil, "", err
+	}
+	done := make(chan error, 1)
+	go func() { done <- cmd.Wait() }()
+	timedOut := false
+	select {
+	case <-done:
+	case <-time.After(timeout):
+		timedOut = true
+		cmd.Process.Kill()
+		<-done
+	}
+	res := map[string]*CrashObs{}
+	if f, err := os.Open(job.Out); err == nil {
+		sc := bufio.NewScanner(f)
+		sc.Buffer(make([]byte, 1<<20), 64<<20)
+		for sc.Scan() {
+			var o CrashObs
+			if json.Unmarshal(sc.Bytes(), &o) == nil && o.ID != "" {
+				oo := o
+				res[o.ID] = &oo
+			}
+		}
+		f.Close()
+	}
+	t := stderr.String()
+	if timedOut {
+		t = "TIMEOUT (recovery hangs)\n" + t
+	}
+	return res, t, nil
+}
+
+var repoFrameRe = regexp.MustCompile(`(?m)^(github\.com/influxdata/influxdb/v2/[^\n]*)\([^()\n]*\)\s*$`)
+
+func deathClass(out string) string {
+	what := "died"
+	switch {
+	case strings.HasPrefix(out, "TIMEOUT"):
+		return "hang (no result within the time limit)"
+	case strings.Contains(out, "stack overflow") || strings.Contains(out, "goroutine stack exceeds"):
+		what = "fatal error: stack overflow"
+	case strings.Contains(out, "fatal error:"):
+		i := strings.Index(out, "fatal error:")
+		what = strings.SplitN(out[i:], "\n", 2)[0]
+	case strings.Contains(out, "panic:"):
+		i := strings.Index(out, "panic:")
+		what = strings.SplitN(out[i:], "\n", 2)[0]
+	}
+	if m := repoFrameRe.FindStringSubmatch(out); m != nil {
+		what += " @ " + m[1]
+	}
+	return what
+}
+
+func recoverAll(scratch string, h CrashHistory, items []crashItem, expired func() bool) (obs []*CrashObs, notes map[int]string, capped bool, err error) {
+	obs = make([]*CrashObs, len(items))
+	notes = map[int]string{}
+	const batch = 64
+	for lo := 0; lo < len(items); {
+		if expired != nil && expired() {
+			return obs, notes, true, nil
+		}
+		hi := min(lo+batch, len(items))
+		dir, err := os.MkdirTemp(scratch, "b-")
+		if err != nil {
+			return nil, nil, false, err
+		}
+		res, _, err := runCrashRecovery(dir, h, items[lo:hi], 120*time.Second+time.Duration(hi-lo)*3*time.Second)
+		os.RemoveAll(dir)
+		if err != nil {
+			return nil, nil, false, err
+		}
+		next := hi
+		for i := lo; i < hi; i++ {
+			if o := res[strconv.Itoa(i-lo)]; o != nil {
+				obs[i] = o
+			} else if i < next {
+				next = i
+			}
+		}
+		if next == hi {
+			lo = hi
+			continue
+		}
+		d2, _ := os.MkdirTemp(scratch, "iso-")
+		r2, out2, err2 := runCrashRecovery(d2, h, items[next:next+1], isolatedTimeout)
+		os.RemoveAll(d2)
+		switch {
+		case err2 != nil:
+			notes[next] = "the isolated recovery could not be run: " + err2.Error()
+		case r2["0"] != nil:
+			obs[next] = r2["0"]
+		default:
+			obs[next] = &CrashObs{ID: "0", Died: deathClass(out2)}
+		}
+		for i := next + 1; i < hi; i++ {
+			obs[i] = nil
+		}
+		lo = next + 1
+	}
+	return obs, notes, false, nil
+}
+
+// CrashCase is the replayable form of one crash violation.
+type CrashCase struct {
+	Part    string             `json:"part"` // "crash"
+	History CrashHistory       `json:"history"`
+	Desc    crashfs.Descriptor `json:"image"`
+	Digest  string             `json:"log_prefix_digest"`
+	Cut     string             `json:"cut_description"`
+}
+
+// fileClass names the kind of file a path of the shard tree denotes.
+func fileClass(p string) string {
+	if i := strings.Index(p, "->"); i >= 0 {
+		p = p[i+2:]
+	}
+	if p == "" {
+		return ""
+	}
+	b := filepath.Base(p)
+	switch {
+	case b == "fields.idx" || b == "fields.idxl" || b == "fields.idx.tmp":
+		return b
+	case strings.HasSuffix(b, ".wal"):
+		return "wal"
+	case strings.HasSuffix(b, ".tsm"):
+		return "tsm"
+	case strings.HasSuffix(b, ".tsm.tmp"):
+		return "tsm.tmp"
+	case strings.HasSuffix(b, ".tombstone") || strings.HasSuffix(b, ".tombstone.tmp"):
+		return "tombstone"
+	case strings.HasSuffix(b, ".tsl"):
+		return "tsi-log"
+	case strings.HasSuffix(b, ".tsi") || strings.HasSuffix(b, ".tsi.compacting"):
+		return "tsi-file"
+	case strings.HasPrefix(b, "MANIFEST"):
+		return "tsi-manifest"
+	case strings.Contains(p, "_series/"):
+		return "series-file"
+	case !strings.Contains(b, "."):
+		return "dir"
+	}
+	return "other"
+}
+
+func isFieldsFile(p string) bool { return strings.HasPrefix(fileClass(p), "fields.") }
+
+func cutClass(im *crashfs.Image) string {
+	return strings.TrimSuffix(im.NextOp+":"+fileClass(im.NextPath), ":")
+}
+
+func crashSig(clause, stage string, im *crashfs.Image, h CrashHistory, cx crashCtx) string {
+	return vlib.JoinSig("crash", clause, stage, "cut="+im.Desc.Kind, "inflight="+inflClass(h.Ops, cx), "at="+cutClass(im))
+}
+
+func crashHistoryRun(c *vlib.Ctx, scratch string, h CrashHistory) (stop bool) {
+	t0 := time.Now()
+	l, err := recordCrashHistory(scratch, h)
+	tRec := time.Since(t0)
+	defer func() {
+		c.Logf("crash item %s: record %.1fs, total %.1fs", h, tRec.Seconds(), time.Since(t0).Seconds())
+	}()
+	if err != nil {
+		if errors.Is(err, crashfs.ErrNoTrace) {
+			c.Cap("crash part: strace cannot trace in this environment, no crash image was produced (" + err.Error() + ")")
+			return true
+		}
+		c.HarnessError(fmt.Sprintf("crash part: recording history %s: %v", h, err))
+		return false
+	}
+	crashLogMu.Lock()
+	crashLogCache[crashHistoryKey(h)] = l
+	crashLogMu.Unlock()
+	c.Extra("crash_histories", 1)
+	c.Extra("crash_events", int64(len(l.Events)))
+	c.Extra("crash_syscalls_in_logs", int64(l.Syscalls))
+	var items []crashItem
+	var st crashfs.Stats
+	skippedTorn := 0
+	for im := range l.Images(crashImgOpts, &st) {
+		cx, err := contextOf(h, im)
+		if err != nil {
+			c.HarnessError(fmt.Sprintf("crash part: history %s image %v: %v", h, im.Desc, err))
+			return false
+		}
+		if !h.keep(cx) {
+			continue
+		}
+		if im.Desc.Kind == crashfs.KindT && !h.AllTorn && !isFieldsFile(im.NextPath) {
+			skippedTorn++
+			continue
+		}
+		items = append(items, crashItem{im, cx})
+	}
+	for _, k := range []string{"P", "T"} {
+		c.Extra("crash_images_generated_"+k, int64(st.Generated[k])) // by the engine, before deduplication and the window / file filters
+	}
+	c.Extra("crash_torn_images_of_other_files_not_evaluated", int64(skippedTorn))
+	c.Extra("crash_writes_with_subsampled_torn_lengths", int64(st.LongTorn))
+	t1 := time.Now()
+	obs, notes, capped, err := recoverAll(scratch, h, items, func() bool { return crashExpired(c) })
+	c.Logf("crash item %s: %d images recovered in %.1fs", h, len(items), time.Since(t1).Seconds())
+	if err != nil {
+		c.HarnessError("crash part: recovery batch: " + err.Error())
+		return false
+	}
+	states := map[string]struct{}{}
+	sampled := false
+	for i, it := range items {
+		o := obs[i]
+		if o == nil {
+			if n, ok := notes[i]; ok {
+				c.HarnessError(fmt.Sprintf("crash part: history %s image %v: %s", h, it.im.Desc, n))
+			}
+			continue
+		}
+		im, cx := it.im, it.cx
+		clause, stage, detail := classify(o)
+		if clause == "harness" {
+			c.HarnessError(fmt.Sprintf("crash part: history %s image %v: %s", h, im.Desc, detail))
+			continue
+		}
+		c.Eval(1)
+		c.Extra("crash_images", 1)
+		c.Extra("crash_images_"+im.Desc.Kind, 1)
+		c.Extra("crash_cuts_at:"+cutClass(im), 1)
+		if o.State != "" {
+			states[o.State+"|"+o.Probe] = struct{}{}
+		}
+		ic := inflClass(h.Ops, cx)
+		dropAcked := ModelOf(h.Ops[:cx.NAcked]).Drops > 0
+		if dropAcked || ic == "write-new-field" || ic == opDrop {
+			c.Nontrivial("crash|" + crashHistoryKey(h) + "|" + im.Desc.String())
+		}
+		res := "ok"
+		if clause != "" {
+			res = "FAIL:" + clause + "@" + stage
+		}
+		da := ""
+		if dropAcked {
+			da = "/after-acked-drop"
+		}
+		c.Outcome(fmt.Sprintf("crash:%s/inflight=%s%s/schema=%s/probe=%s:%s", im.Desc.Kind, ic, da, o.Settle, resultKind(o.Probe[strings.LastIndex(o.Probe, " ")+1:]), res))
+		cutDesc := fmt.Sprintf("%v: %s %s", im.Desc, im.NextOp, im.NextPath)
+		if clause != "" {
+			c.Violation(crashSig(clause, stage, im, h, cx),
+				fmt.Sprintf("crash history %s, image %s; acknowledged ops %v, in flight: %s — stage %s: %s", h, cutDesc, h.Ops[:cx.NAcked], orNone(cx.Infl), stage, detail),
+				CrashCase{Part: "crash", History: h, Desc: im.Desc, Digest: prefixDigest(l, im.Desc), Cut: cutDesc})
+		} else if !sampled && c.WantSample() && im.Desc.Kind == crashfs.KindT && (ic == "write-new-field" || ic == opDrop) {
+			sampled = true
+			c.Sample(map[string]any{"part": "crash", "history": h.String(), "image": im.Desc.String(), "at": im.NextOp + " " + im.NextPath, "acknowledged": h.Ops[:cx.NAcked],
+				"in_flight": cx.Infl, "recovered_schema": o.State, "schema_is_that": o.Settle, "probe_write": o.Probe})
+		}
+	}
+	c.Extra("crash_distinct_recovered_states", int64(len(states)))
+	if capped {
+		c.Cap("the crash part's share of the budget expired (recovery of history " + h.Name + ")")
+	}
+	return false
+}
+
+func orNone(s string) string {
+	if s == "" {
+		return "none"
+	}
+	return s
+}
+
+// The crash part may use at most half of the tier's wall budget, so that on an overloaded machine the history and
+// schedule parts still run (a cap is recorded, never an alarm).
+var crashDeadline time.Time
+
+func crashShare(c *vlib.Ctx) time.Duration {
+	if s := os.Getenv("C10_CRASH_SHARE_S"); s != "" { // development aid (mutation runs on an overloaded machine)
+		if v, err := strconv.Atoi(s); err == nil {
+			return time.Duration(v) * time.Second
+		}
+	}
+	if c.Thorough() {
+		return 400 * time.Second
+	}
+	return 30 * time.Second
+}
+
+func crashExpired(c *vlib.Ctx) bool { return c.Expired() || time.Now().After(crashDeadline) }
+
+func runCrash(c *vlib.Ctx) {
+	defer func() {
+		if r := recover(); r != nil {
+			c.HarnessError(fmt.Sprintf("crash part: explorer panicked: %v\n%s", r, debug.Stack()))
+		}
+	}()
+	scratch := vlib.Scratch("c10c-")
+	defer os.RemoveAll(scratch)
+	crashDeadline = time.Now().Add(crashShare(c))
+	for hi, h := range crashHistories(c.Tier) {
+		if !c.Mine(int64(hi)) {
+			continue
+		}
+		if crashExpired(c) {
+			c.Cap("the crash part's share of the budget expired (before history " + h.Name + ")")
+			break
+		}
+		if crashHistoryRun(c, scratch, h) {
+			return
+		}
+	}
+}
+
+func replayCrash(raw json.RawMessage) (bool, string) {
+	var cs CrashCase
+	if err := json.Unmarshal(raw, &cs); err != nil {
+		return false, err.Error()
+	}
+	scratch := vlib.Scratch("c10cr-")
+	defer os.RemoveAll(scratch)
+	h := cs.History
+	l, msg := findCrashLog(scratch, h, cs.Desc, cs.Digest)
+	if l == nil {
+		return false, msg
+	}
+	im, err := l.Build(cs.Desc, crashImgOpts)
+	if err != nil {
+		return false, "cannot rebuild the image: " + err.Error()
+	}
+	cx, err := contextOf(h, im)
+	if err != nil {
+		return false, err.Error()
+	}
+	dir, _ := os.MkdirTemp(scratch, "img-")
+	res, out, err := runCrashRecovery(dir, h, []crashItem{{im, cx}}, isolatedTimeout)
+	if err != nil {
+		return false, "recovery could not be run: " + err.Error()
+	}
+	obs := fmt.Sprintf("crash history %s image %v (at the cut: %s %s; acknowledged %v, in flight: %s): ", h, cs.Desc, im.NextOp, im.NextPath, h.Ops[:cx.NAcked], orNone(cx.Infl))
+	o := res["0"]
+	if o == nil {
+		o = &CrashObs{ID: "0", Died: deathClass(out)}
+	}
+	clause, stage, detail := classify(o)
+	if clause == "" {
+		return false, obs + fmt.Sprintf("recovers as the oracle demands: schema {%s} = %s; probe %s", o.State, o.Settle, o.Probe)
+	}
+	return clause != "harness", obs + clause + "@" + stage + ": " + detail
+}
+
 func TestCheck(t *testing.T) {
+	if js := os.Getenv("VERIF_CRASH_WRITER"); js != "" {
+		os.Exit(crashWriterMain(js))
+	}
+	if jp := os.Getenv("VERIF_C10_RECOVER"); jp != "" {
+		os.Exit(crashRecoverMain(jp))
+	}
+	if n := os.Getenv("VERIF_C10_DUMP"); n != "" { // development aid: print the event list of one crash history
+		for _, h := range crashHistories("thorough") {
+			if h.Name != n {
+				continue
+			}
+			scratch := vlib.Scratch("c10d-")
+			defer os.RemoveAll(scratch)
+			l, err := recordCrashHistory(scratch, h)
+			if err != nil {
+				fmt.Println("record:", err)
+				return
+			}
+			for _, e := range l.Events {
+				if len(e.Data) > 32 {
+					e.Data = e.Data[:32]
+				}
+				b, _ := json.Marshal(e)
+				fmt.Println(string(b))
+			}
+			return
+		}
+		return
+	}
 	vlib.Main(t, &vlib.Check{
 		ID: "C10", Level: "model_checking",
-		Rule: "PART 1 histories (opseq): op alphabet {WF/WI/WS: write 2 points of m.f as float/integer/string, WG: m.g float, W2: m2.f integer, DM: DeleteMeasurement(m), SN: cache snapshot to TSM, RO: clean close+reopen, KR: kill-restart = copy of the live directory opened with the real open path}; quick: every sequence of length ≤3 over all 9 ops, every length-4 sequence over {WF,WI,DM,SN,RO,KR} starting with a write, every length-4 sequence write·{RO,KR,SN,DM}·{write,DM}·{RO,KR}; thorough: additionally length ≤3 with the default 8 tsi1 partitions and with INFLUXDB_SERIES_TYPE_CHECK_ENABLED, every length-4 sequence over all 9 ops starting with a write, every length-5 sequence over the 6 core ops starting with a write. Each history runs on a fresh real tsdb.Shard (tsm1 + tsi1 + series file + WAL; 1 tsi1 partition unless stated); every op result (error / PartialWriteError.Dropped) and the final recorded field types (MeasurementFieldSet), raw dump of all stored values and cursor reads are compared with a reference model; only the first divergence of a history is reported (all prefixes are enumerated). PART 2 schedules (vsched): 2 (thorough: one scenario with 3) real goroutines call Shard.WritePoints creating the same new field with different / equal types, from a fresh shard / a measurement that exists with another field [thorough: / a dropped measurement / series type check on]; every schedule with ≤ B preemptions (quick B=2 for float-vs-integer on a new measurement, 1 otherwise; thorough B=3 / 2) at the sync points of tsdb/shard.go, tsm1/engine.go, tsm1/cache.go, tsm1/ring.go kept by the filter (Shard.mu, MeasurementFieldSet.mu, change-log writer mutex, Engine.mu in WritePoints, Cache.mu in WriteMulti, ring partition lock); results + final schema/raw/cursor state must equal those of some sequential order of the writes. states = distinct (model schema, on-disk layout) of histories + decision nodes of the schedule trees; transitions = ops executed + scheduling steps; traces = histories + schedule executions. non-trivial = histories with a conflicting write or a restart after a drop; schedules with ≥1 preemption (distinct by construction)",
+		Rule: "PART 1 histories (opseq): op alphabet {WF/WI/WS: write 2 points of m.f as float/integer/string, WG: m.g float, W2: m2.f integer, DM: DeleteMeasurement(m), SN: cache snapshot to TSM, RO: clean close+reopen, KR: kill-restart = copy of the live directory opened with the real open path}; quick: every sequence of length ≤3 over all 9 ops, every length-4 sequence over {WF,WI,DM,SN,RO,KR} starting with a write, every length-4 sequence write·{RO,KR,SN,DM}·{write,DM}·{RO,KR}; thorough: additionally length ≤3 with the default 8 tsi1 partitions and with INFLUXDB_SERIES_TYPE_CHECK_ENABLED, every length-4 sequence over all 9 ops starting with a write, every length-5 sequence over the 6 core ops starting with a write. Each history runs on a fresh real tsdb.Shard (tsm1 + tsi1 + series file + WAL; 1 tsi1 partition unless stated); every op result (error / PartialWriteError.Dropped) and the final recorded field types (MeasurementFieldSet), raw dump of all stored values and cursor reads are compared with a reference model; only the first divergence of a history is reported (all prefixes are enumerated). PART 2 schedules (vsched): 2 (thorough: one scenario with 3) real goroutines call Shard.WritePoints creating the same new field with different / equal types, from a fresh shard / a measurement that exists with another field [thorough: / a dropped measurement / series type check on]; every schedule with ≤ B preemptions (quick B=2 for float-vs-integer on a new measurement, 1 otherwise; thorough B=3 / 2) at the sync points of tsdb/shard.go, tsm1/engine.go, tsm1/cache.go, tsm1/ring.go kept by the filter (Shard.mu, MeasurementFieldSet.mu, change-log writer mutex, Engine.mu in WritePoints, Cache.mu in WriteMulti, ring partition lock); results + final schema/raw/cursor state must equal those of some sequential order of the writes. states = distinct (model schema, on-disk layout) of histories + decision nodes of the schedule trees; transitions = ops executed + scheduling steps; traces = histories + schedule executions. non-trivial = histories with a conflicting write or a restart after a drop; schedules with ≥1 preemption (distinct by construction). PART 3 crash points (crashfs; counted under the crash_* coverage keys and the crash:* outcomes, not under states/transitions/traces): histories over {WF, WI, WS, WG, W2, DM, SN, RO} performed by a writer subprocess (WriteHistory on a real shard with 1 tsi1 partition, GOMAXPROCS=1) under strace with BEGIN/ACK markers around the initial open of the empty directory and every op; the process exits without closing. Quick: 3 hand-picked histories, every cut (create-conflict-drop [WF WI WG DM WS W2]: fields.idxl creation record, conflicting write, second field, deletion record, same field with another type, other measurement, plus the initial open; fold-drop-fold [WF W2 RO DM WI RO WG]: clean close folds fields.idxl into fields.idx (fields.idx.tmp written, renamed, fields.idxl removed), drop and create on top of a fields.idx that lists the measurement, second fold; snapshot-drop [WF SN DM WI SN RO]: drop after a snapshot (TSM tombstone + deletion record)), split into 13 work items by op window (each item re-records the history and evaluates the cuts of its ops). Thorough: the same with one work item per op, create-conflict-drop with the torn images of EVERY write (WAL, tsi1 log, series file, ...), drop-twice [WF WG DM DM WF RO DM RO WS], plus EVERY sequence of length 1..3 over the 7 ops {WF, WI, WG, W2, DM, SN, RO} (cuts of the last op only, so every (prefix, cut) is evaluated once). Per history every prefix of the syscall-level event list (P: crash between any two syscalls of any file of the shard tree) and every torn length 1..n-1 of the writes to fields.idxl / fields.idx.tmp / fields.idx (T); no U images (process death; see assumptions). One evaluation = one (image, acknowledgement context) recovered in a fresh subprocess by CheckCrashRecovery: real series file + Shard.Open on the image; recorded field types, raw stored values, cursor reads; one probe write of ANOTHER type to the field of the op in flight (else m.f); second process death (directory copied without closing) + open; everything read again. Crash oracle: the shard opens; recorded field types = those of the acknowledged ops or of acknowledged ops + op in flight (as a whole); an acknowledged DeleteMeasurement leaves no field of m; stored values ⊇ those in both states and ⊆ those in either; no cursor read error; every stored value has the type recorded for its field; the probe write is rejected with Dropped=2 iff the recovered schema holds the field with another type, and is stored iff accepted; after the second restart field types and stored values are exactly those before it (a drop is not resurrected). Non-trivial crash case = a drop acknowledged before the cut, or a drop / field-creating write in flight",
 		Assumptions: []string{
 			"a kill-restart image is the directory tree as the page cache holds it while the process is alive and idle (every completed write(2) present); torn / unsynced images belong to the crash part (crashfs)",
 			"background compactions and the automatic cache snapshotter are off; snapshots are taken by the SN op",
 			"dropping a measurement that does not exist is a successful no-op",
 			"deep levels use INFLUXDB_EXP_TSI_PARTITIONS=1-equivalent (tsi1.DefaultPartitionN=1): the field schema does not depend on the index partitioning (length ≤1 quick / ≤3 thorough is repeated with the default 8)",
 			"schedules: sequentially consistent interleavings at lock/atomic granularity; sync.Map operations (gensyncmap LoadOrStore) are atomic steps without a scheduling point of their own",
+			"crash part: process-death model — ordered metadata, every completed write(2) present, the write in flight torn at any byte (field-schema files; thorough: one history with every file); data is never dropped back to the last fsync (no U images): tsdb/shard.go promises no fsync-before-acknowledge for fields.idx/fields.idxl (they are opened O_SYNC), and WAL/TSM/index durability belongs to C02/C14",
+			"crash part: kill-restart (KR) is not part of recorded histories (it copies the directory elsewhere); WS only occurs in hand-picked histories; series type check off; 1 tsi1 partition",
+			"crash part: the raw dump is compared as a set per key (a crash between the rename of a snapshot's TSM file and the removal of its WAL segment leaves a value in both places)",
+			"the crash part may use at most half of the wall budget (30 s quick / 400 s thorough); beyond that it is capped (exhaustive:false), never an alarm",
 		},
 		QuickBudgetS: 60, ThoroughBudgetS: 800, WorkerEnv: []string{"GOMAXPROCS=1"},
 		Run: func(c *vlib.Ctx) {
@@ -1011,6 +2108,12 @@ func TestCheck(t *testing.T) {
 			const shallow = 4 // number of leading levels of length ≤ 3 (same in both tiers)
 			var idx int64
 			part := os.Getenv("C10_PART")
+			if part == "" || part == "crash" {
+				runCrash(c) // crash part first: of fixed size, so a budget cap always lands in the deeper history levels
+			}
+			if part == "crash" {
+				return
+			}
 			if part != "schedules" {
 				runHistories(c, &idx, 0, shallow)
 			}
@@ -1031,6 +2134,8 @@ func TestCheck(t *testing.T) {
 				return replayHist(raw)
 			case "schedule":
 				return replaySched(t, raw)
+			case "crash":
+				return replayCrash(raw)
 			}
 			return false, "unknown case part " + probe.Part
 		},
